@@ -345,6 +345,18 @@ Definition ok_C04 (cs : c04_case) (o : c04_obs) : bool :=
   listN_eqb (o_sub o) (if c_ws cs then notify_tags (c_sched cs) else []) &&
   nodupb (o_ids o).
 
+(** the same case on a WebSocket client on which nobody subscribed to
+    notifications: the reader routes exactly as before (the notify byte is
+    looked at first, the pending map is not consulted) but drops the frame
+    instead of handing it over; nothing reaches a subscriber and the calls
+    are judged as before *)
+Definition drop_sub (o : c04_obs) : c04_obs := mkObs (o_out o) [] (o_ids o).
+Definition model_C04_nosub (cs : c04_case) : c04_obs := drop_sub (model_C04 cs).
+Definition ok_C04_nosub (cs : c04_case) (o : c04_obs) : bool :=
+  ok_callers (c_sched cs) (callers (c_n cs)) (o_out o) &&
+  (match o_sub o with [] => true | _ => false end) &&
+  nodupb (o_ids o).
+
 Definition oc_eqb (a b : oc) : bool :=
   match a, b with
   | CGot x, CGot y => x =? y
